@@ -192,6 +192,14 @@ impl Monitor for Mon {
                                 return Some(Violation::new("C11.invalid-setting-applied", "cflist-mask", "an all-zero CFList channel mask was installed".to_string()));
                             }
                         }
+                        (false, 1) | (true, 0) => {
+                            // a channel-mask list in a dynamic-plan region, a frequency list in a fixed-plan region:
+                            // RP002 defines no such list for the region, so it is not valid there and must be ignored
+                            if a.mask != b.mask || a.channels != b.channels {
+                                return Some(Violation::new("C11.invalid-setting-applied", "cflist-foreign-type", format!("a CFList of type {} changed the channel plan of {region:?}, which defines no such list", cf[15])));
+                            }
+                            stats.bump("probe.foreign-cflist-ignored");
+                        }
                         (_, t) if t >= 2 => {
                             if a.mask != b.mask || a.channels != b.channels {
                                 return Some(Violation::new("C11.invalid-setting-applied", "cflist-rfu-type", format!("a CFList of RFU type {t} changed the channel plan")));
@@ -290,7 +298,7 @@ impl Property for C11 {
     }
     fn assumptions(&self) -> Vec<String> {
         vec![
-            "RX2 data rates that RP002 defines but this stack does not implement (or that are uplink-only), type-1 CFLists in dynamic regions, type-0 CFLists in fixed regions and channel masks with fewer than two 125 kHz channels may be applied or ignored".into(),
+            "RX2 data rates that RP002 defines but this stack does not implement (or that are uplink-only) and channel masks with fewer than two 125 kHz channels may be applied or ignored; CFLists of a type the region does not define (type 1 in dynamic-plan regions, type 0 in fixed-plan regions) must be ignored".into(),
             "only the low nibble of the RxDelay octet is interpreted (the high nibble is RFU)".into(),
         ]
     }
